@@ -4,9 +4,9 @@
 //   drv_toml run <cases> <out.ndjson> <batch> <parallel>          forked workers (parsers_run.hpp)
 // case lines (written by checks/X16.py from the states of spec/extra/Toml.tla):
 //   T <flags> <nl 0|1> <lexeme names joined by ','| -> <hex of the document text | ->
-//      flags: h = the specification predicts that the as-built parser may not terminate on this document: the case runs
-//             in a child of its own under a CPU-time limit (ITIMER_VIRTUAL, 300 ms of CPU - no wall-clock dependence);
-//             - = run in the worker (a hang there is caught by the worker's stall detection and reported as Hung)
+//      flags: h = the case runs in a child of its own under a CPU-time limit (ITIMER_VIRTUAL, 300 ms of CPU - no wall-clock
+//             dependence): p1 = "hang" if the first parse does not return, p2 = "hang" if the re-parse does not (checks/X16.py
+//             guards every case); - = run in the worker (a hang there is caught by the worker's stall detection: Hung)
 // events (judged by spec/extra/TomlTrace.tla):
 //   Toml {lex,nl,doc,p1,x1,t1,ser,p2,t2,fix}
 //      t1 / t2: the tree as a sorted list of entries [key, ..., key, value]; value = i:<int> b:<bool> s:<hex> f:<%.17g>
@@ -16,6 +16,7 @@
 #include "vf/exec.hpp"
 #include "vf/trace.hpp"
 #include <algorithm>
+#include <functional>
 #include <sys/time.h>
 
 namespace toml = iora::parsers::toml;
@@ -131,7 +132,9 @@ static std::string entriesJson(Entries e)
   return o + "]";
 }
 
-static std::string body(const std::vector<std::string> &lex, bool nl, const std::string &doc)
+// sink: called with the event as it would read if the process died right now (after phase 1: p2 = "hang")
+static std::string body(const std::vector<std::string> &lex, bool nl, const std::string &doc,
+                        const std::function<void(const std::string &)> &sink = nullptr)
 {
   std::string p1 = "rej", x1 = "none", ser = "na", p2 = "na";
   Entries t1, t2;
@@ -171,6 +174,9 @@ static std::string body(const std::vector<std::string> &lex, bool nl, const std:
     }
     if (ser == "ok")
     {
+      if (sink)
+        sink(vf::Ev("Toml").strs("lex", lex).b("nl", nl).str("doc", doc).str("p1", p1).str("x1", x1).raw("t1", entriesJson(t1)).str("ser", ser)
+               .str("p2", "hang").raw("t2", "[]").b("fix", false).done() + "\n");
       try
       {
         toml::table again = toml::parse(text1);
@@ -210,14 +216,17 @@ static std::string runCase(const std::string &line)
     struct itimerval tv = {};
     tv.it_value.tv_usec = 300000;
     setitimer(ITIMER_VIRTUAL, &tv, nullptr); // default action of SIGVTALRM: terminate
-    std::string t = body(lex, nl, doc);
-    size_t off = 0;
-    while (off < t.size())
+    auto put = [&](const std::string &t)
     {
-      ssize_t k = write(fd[1], t.data() + off, t.size() - off);
-      if (k <= 0) break;
-      off += (size_t)k;
-    }
+      size_t off = 0;
+      while (off < t.size())
+      {
+        ssize_t k = write(fd[1], t.data() + off, t.size() - off);
+        if (k <= 0) break;
+        off += (size_t)k;
+      }
+    };
+    put(body(lex, nl, doc, put));
     _exit(0);
   }
   close(fd[1]);
@@ -228,8 +237,15 @@ static std::string runCase(const std::string &line)
   close(fd[0]);
   int st = 0;
   waitpid(p, &st, 0);
-  if (WIFEXITED(st) && WEXITSTATUS(st) == 0 && !got.empty()) return got;
-  std::string p1 = (WIFSIGNALED(st) && WTERMSIG(st) == SIGVTALRM) ? "hang" : "crash";
+  // the last complete line is the verdict (a preliminary line after phase 1 says p2 = "hang")
+  bool timedOut = WIFSIGNALED(st) && WTERMSIG(st) == SIGVTALRM;
+  if (!got.empty() && got.back() == '\n' && ((WIFEXITED(st) && WEXITSTATUS(st) == 0) || timedOut))
+  {
+    size_t e = got.size() - 1;
+    size_t b = got.rfind('\n', e - 1);
+    return got.substr(b == std::string::npos ? 0 : b + 1);
+  }
+  std::string p1 = timedOut ? "hang" : "crash";
   return vf::Ev("Toml").strs("lex", lex).b("nl", nl).str("doc", doc).str("p1", p1).str("x1", "none").raw("t1", "[]").str("ser", "na")
            .str("p2", "na").raw("t2", "[]").b("fix", false).done() + "\n";
 }
